@@ -69,6 +69,10 @@ CLAIMED = {
          "Exploration by generated search over step kinds x spellings x bases (variable, '.', call result) x 6 zoo variants, with an optional invalid step at any depth; label histogram of step kinds and failure classes in the evidence.",
          'The zoo is a fixed family of hand-written Go types (types with methods cannot be created at run time). Not generated: pointer-receiver methods on unaddressable values, methods on nil pointers, selectors ambiguous in Go, absent map keys through .name syntax, anything after a slice expression (grammar).',
          'DESIGN.md section 5/C06'),
+ 'C17': ('property-based testing (rapid): isset over generated argument lists of access paths into zoo values (valid/invalid at any depth, nils of every kind, absent keys, zero values, variable and undefined indexes) in direct / prefix / piped form, and two-value map look-ups; oracle = independent existence evaluator (every step resolves and is non-nil) / key presence',
+         "Exploration by generated search; Execute must return nil and render exactly the evaluator's true/false.",
+         'Only the documented argument kinds are generated (identifier, field, index, chain); in piped form only expressions that evaluate without error on their own (they are evaluated before isset sees the value).',
+         'DESIGN.md section 5/C17'),
 }
 PENDING = {}
 
